@@ -443,6 +443,18 @@ Theorem C06_num_threads_exact : forall r,
 Proof. exact num_threads_exact. Qed.
 Print Assumptions C06_num_threads_exact.
 
+(* the status file has no size bound (Groups: lists up to 65536 supplementary gids, printed BEFORE
+   Threads: and the ctxt lines).  The four theorems above hold for EVERY groups list; here spelled
+   out: for every n there is a kernel-formatted record longer than n bytes on which they are exact *)
+Theorem C06_status_unbounded : forall n,
+  wf_kstatus (big_status n) = true /\ Nat.le n (length (k_status (big_status n))) /\
+  uids (k_status (big_status n)) = Val [1000; 1001; 1002] /\
+  gids (k_status (big_status n)) = Val [100; 101; 102] /\
+  num_threads (k_status (big_status n)) = Val 128 /\
+  num_ctx_switches (k_status (big_status n)) = Val (31337, 7).
+Proof. exact status_unbounded. Qed.
+Print Assumptions C06_status_unbounded.
+
 (* the unanchored ctxt_switches pattern: exact for every comm of at most 15 bytes
    (NotImplementedError when the kernel does not print the two lines) *)
 Theorem C06_num_ctx_switches_exact : forall r,
